@@ -47,6 +47,14 @@ func shallowInert(s ast.Stmt, tracked map[string]bool) bool {
 	case *ast.ExprStmt:
 		return isLogStmt(s) || strings.HasPrefix(srcOf(v.X), "metrics.")
 	case *ast.DeclStmt:
+		// `var x bool` is translated (it starts as false); every other declaration is skipped
+		if gd, ok := v.Decl.(*ast.GenDecl); ok {
+			for _, sp := range gd.Specs {
+				if vs, ok := sp.(*ast.ValueSpec); ok && vs.Type != nil && srcOf(vs.Type) == "bool" {
+					return false
+				}
+			}
+		}
 		return true
 	case *ast.AssignStmt:
 		for _, l := range v.Lhs {
@@ -205,6 +213,101 @@ func rangeOver(fd *ast.FuncDecl, src string) (pre []ast.Stmt, loopVar string, bo
 		}
 	}
 	return nil, "", nil
+}
+
+// genClassify: the loop body of Controller.filterNodes -> Gen.classifyNode (which of the four lists a node is appended to)
+func genClassify(repo, out string) {
+	ct := parse(filepath.Join(repo, "pkg/controller/controller.go"))
+	var b strings.Builder
+	b.WriteString("/- GENERATED by /verif/extract from /repo/pkg/controller/controller.go (filterNodes) — do not edit. -/\nimport Esc.Gen.Arith\nnamespace Esc.Gen\n\n")
+	a := &ar{fn: "loopBody", appendCodes: map[string]int{"untaintedNodes": 1, "taintedNodes": 2, "forceTaintedNodes": 3, "cordonedNodes": 4}}
+	body := "  0 -- loop not found"
+	_, x, lb := rangeOver(findFunc(ct, "filterNodes"), "allNodes")
+	if lb != nil {
+		a.atoms = map[string][2]string{"c.dryMode(nodeGroup)": {"dry", "B"}, x + ".Spec.Unschedulable": {"unschedulable", "B"}}
+		a.callAtoms = map[string][][2]string{
+			"k8s.GetToBeForceRemovedTaint(" + x + ")": {{"", ""}, {"hasForce", "B"}},
+			"k8s.GetToBeRemovedTaint(" + x + ")":      {{"", ""}, {"hasEsc", "B"}},
+		}
+		a.containsAtoms = map[string]string{"nodeGroup.taintTracker": "inTaintTracker", "nodeGroup.forceTaintTracker": "inForceTracker"}
+		a.markInert(lb, map[string]bool{"untaintedNodes": true, "taintedNodes": true, "forceTaintedNodes": true, "cordonedNodes": true})
+		body = "  let appended_ : Nat := 0\n" + a.block(lb, env{}, "  ")
+	} else {
+		a.unknown++
+	}
+	b.WriteString("/-- One iteration of the loop of `filterNodes`: the list the node is appended to (1 untainted, 2 tainted, 3 force-tainted,\n    4 cordoned, 0 none). `inTaintTracker` / `inForceTracker`: the dry-mode trackers contain the node's name; `hasForce` / `hasEsc`:\n    `GetToBeForceRemovedTaint` / `GetToBeRemovedTaint` find the taint. -/\n")
+	b.WriteString("def classifyNode (dry inTaintTracker inForceTracker unschedulable hasForce hasEsc : Bool) : Nat :=\n" + body + "\n\n")
+	fmt.Fprintf(&b, "def numClassifyUnknown : Nat := %d\n\nend Esc.Gen\n", a.unknown)
+	writeIfChanged(filepath.Join(out, "Classify.lean"), b.String())
+}
+
+// genAwsGuards: the decision heads of aws.NodeGroup.IncreaseSize and DeleteNodes (pkg/cloudprovider/aws/aws.go)
+func genAwsGuards(repo, out string) {
+	aw := parse(filepath.Join(repo, "pkg/cloudprovider/aws/aws.go"))
+	var b strings.Builder
+	b.WriteString("/- GENERATED by /verif/extract from /repo/pkg/cloudprovider/aws/aws.go — do not edit. -/\nimport Esc.Gen.Arith\nnamespace Esc.Gen\n\n")
+	b.WriteString("/-! Results are (kind, argument): (0, 0) an error is returned before any AWS call; (1, d) `setASGDesiredSizeOneShot(d)`;\n    (2, v) `setASGDesiredSize(v)`; (3, 0) the guards are passed (the function goes on). -/\n\n")
+	total := 0
+	method := func(name string) *ast.FuncDecl {
+		for _, d := range aw.Decls {
+			if fd, ok := d.(*ast.FuncDecl); ok && fd.Name.Name == name && fd.Recv != nil && len(fd.Recv.List) == 1 && strings.Contains(srcOf(fd.Recv.List[0].Type), "NodeGroup") {
+				return fd
+			}
+		}
+		return nil
+	}
+	recvName := func(fd *ast.FuncDecl) string {
+		if len(fd.Recv.List[0].Names) > 0 {
+			return fd.Recv.List[0].Names[0].Name
+		}
+		return "n"
+	}
+	{
+		a := &ar{fn: "awsGuard"}
+		body := "  ((0 : Int), (0 : Int)) -- not found"
+		fd := method("IncreaseSize")
+		if fd != nil && fd.Body != nil && fd.Type.Params != nil && len(fd.Type.Params.List) == 1 && len(fd.Type.Params.List[0].Names) == 1 {
+			n := recvName(fd)
+			d := fd.Type.Params.List[0].Names[0].Name
+			a.atoms = map[string][2]string{n + ".TargetSize()": {"target", "I"}, n + ".MaxSize()": {"max", "I"}, n + ".canScaleInOneShot()": {"oneShot", "B"}, d: {"delta", "I"}}
+			a.markInert(fd.Body.List, map[string]bool{})
+			body = a.block(fd.Body.List, env{}, "  ")
+		} else {
+			a.unknown++
+		}
+		b.WriteString("/-- `NodeGroup.IncreaseSize`: what it does with a delta, given the cached desired size and maximum of the ASG. -/\n")
+		b.WriteString("def increaseSize (delta target max : Int) (oneShot : Bool) : Int × Int :=\n" + body + "\n\n")
+		total += a.unknown
+	}
+	{
+		a := &ar{fn: "awsGuard"}
+		body := "  ((0 : Int), (0 : Int)) -- not found"
+		fd := method("DeleteNodes")
+		var pre []ast.Stmt
+		if fd != nil && fd.Body != nil {
+			for i, s := range fd.Body.List {
+				if _, ok := s.(*ast.RangeStmt); ok {
+					pre = fd.Body.List[:i]
+					break
+				}
+			}
+		}
+		if pre != nil && fd.Type.Params != nil && len(fd.Type.Params.List) == 1 && len(fd.Type.Params.List[0].Names) == 1 {
+			n := recvName(fd)
+			xs := fd.Type.Params.List[0].Names[0].Name
+			a.atoms = map[string][2]string{n + ".TargetSize()": {"target", "I"}, n + ".MinSize()": {"min", "I"}, "int64(len(" + xs + "))": {"count", "I"}}
+			ss := append(append([]ast.Stmt{}, pre...), &ast.ReturnStmt{Results: []ast.Expr{ast.NewIdent("nil")}})
+			a.markInert(ss, map[string]bool{})
+			body = a.block(ss, env{}, "  ")
+		} else {
+			a.unknown++
+		}
+		b.WriteString("/-- The guards of `NodeGroup.DeleteNodes` in front of its loop, for `count` nodes. -/\n")
+		b.WriteString("def deleteGuard (target min count : Int) : Int × Int :=\n" + body + "\n\n")
+		total += a.unknown
+	}
+	fmt.Fprintf(&b, "def numAwsUnknown : Nat := %d\n\nend Esc.Gen\n", total)
+	writeIfChanged(filepath.Join(out, "AwsGuards.lean"), b.String())
 }
 
 func genReap(repo, out string) {
